@@ -264,6 +264,19 @@ pub enum PData {
 }
 
 impl PData {
+    /// same structure, same constructors and byte strings: at most integer leaves differ
+    pub fn differs_in_integers_only(&self, other: &PData) -> bool {
+        match (self, other) {
+            (PData::Int(_), PData::Int(_)) => true,
+            (PData::Bytes(a), PData::Bytes(b)) => a == b,
+            (PData::Constr(i, a), PData::Constr(j, b)) => i == j && a.len() == b.len() && a.iter().zip(b).all(|(x, y)| x.differs_in_integers_only(y)),
+            (PData::List(a), PData::List(b)) => a.len() == b.len() && a.iter().zip(b).all(|(x, y)| x.differs_in_integers_only(y)),
+            (PData::Map(a), PData::Map(b)) => {
+                a.len() == b.len() && a.iter().zip(b).all(|((k1, v1), (k2, v2))| k1.differs_in_integers_only(k2) && v1.differs_in_integers_only(v2))
+            }
+            _ => false,
+        }
+    }
     pub fn unit() -> PData {
         PData::Constr(0, vec![])
     }
